@@ -167,25 +167,23 @@ Record ropts := { o_ignore : list N; o_explicit : list N; o_dev_deps : bool }.
 
 Definition match_id (v : fvuln) (ids : list N) : bool :=
   memN (f_id v) ids || existsb (fun a => memN a ids) (f_aliases v).
+(* ExplicitVulns: "if set, only consider these vulnerability IDs & ignore all others" - the ID
+   itself must be listed (aliases do not count) *)
+Definition explicit_ok (o : ropts) (v : fvuln) : bool :=
+  match o_explicit o with [] => true | e => memN (f_id v) e end.
 Definition match_vuln (o : ropts) (v : fvuln) : bool :=
   if match_id v (o_ignore o) then false
+  else if negb (explicit_ok o v) then false
   else if negb (o_dev_deps o) && f_dev_only v then false
   else f_sev_ok v && f_depth_ok v.
 
-(* ResolveGraphVulns: with a non-empty ExplicitVulns, the IDs of all found vulnerabilities that
-   are not listed are APPENDED TO opts.IgnoreVulns. opts points into doStrategy's copy of the
-   options: everything later in the same FixVulns call (the strategies' MatchVuln calls) sees the
-   longer list, the caller of FixVulns does not. Then MatchVuln filters. Returns the options as
-   they are afterwards. *)
+(* ResolveGraphVulns: FindVulnerabilities, then the MatchVuln filter. The options are only read
+   (since fix ad14cb22 nothing is appended to IgnoreVulns); they are returned so that the
+   correspondence can check that they are what they were. *)
 Definition resolve_graph_vulns (o : ropts) (all : list fvuln) : ropts * list fvuln :=
-  let o' := match o_explicit o with
-            | [] => o
-            | _ => {| o_ignore := o_ignore o ++ map f_id (filter (fun v => negb (memN (f_id v) (o_explicit o))) all);
-                      o_explicit := o_explicit o; o_dev_deps := o_dev_deps o |}
-            end in
-  (o', filter (match_vuln o') all).
+  (o, filter (match_vuln o) all).
 
-(* the filtering the strategies do after re-resolving a patched manifest: MatchVuln on the dereferenced opts, nothing else *)
+(* the filtering the strategies do after re-resolving a patched manifest: MatchVuln with the same options *)
 Definition filter_vulns (o : ropts) (all : list fvuln) : list fvuln := filter (match_vuln o) all.
 
 Definition to_vuln (v : fvuln) : vuln := {| v_id := f_id v; v_pkgs := f_pkgs v |}.
@@ -231,8 +229,8 @@ Section Pipeline.
   Variable mgmt : rtype.
 
   (* what a strategy returns for one attempt: the requirements of its patched manifest clone;
-     the strategies filter the re-resolved vulnerabilities with the options AS THEY ARE AFTER the
-     first analysis *)
+     the strategies filter the re-resolved vulnerabilities with the options the first analysis
+     returned (the user's options) *)
   Definition patch_of (o1 : ropts) (orig : resolved) (cand : list req) : patch :=
     construct_patches mgmt orig {| m_reqs := cand; m_vulns := map to_vuln (filter_vulns o1 (analyse cand)) |}.
 
@@ -263,16 +261,6 @@ Definition additions_plain (mgmt : rtype) (old new : list req) : bool :=
   forallb (fun r => mem_key (key r) (keys old) || N.eqb (t_tk (r_type r)) (t_tk mgmt)) new.
 Definition roundtrip_domain (mgmt : rtype) (old new : list req) : bool :=
   unique_keys old && unique_keys new && subset_keys old new && additions_plain mgmt old new.
-
-(* ------------------------------------------------------------------ domain for explicit lists *)
-(* D for the explicit-list mode: the options as they are after the first analysis (o1) and as a
-   fresh analysis of the new manifest makes them (o2) accept the same vulnerabilities of the new
-   manifest. With an empty explicit list o1 = o2 = the user's options. *)
-Definition explicit_consistent (o : ropts) (all_orig all_new : list fvuln) : bool :=
-  let o1 := fst (resolve_graph_vulns o all_orig) in
-  let o2 := fst (resolve_graph_vulns o all_new) in
-  forallb (fun v => Bool.eqb (match_vuln o1 v) (match_vuln o2 v)) all_new.
-
 
 (* ------------------------------------------------------------------ set helpers used by specs and oracle *)
 Definition subsetN (a b : list N) : bool := forallb (fun x => memN x b) a.
